@@ -456,10 +456,16 @@ def union_name_scenarios(w: PolWorld, branch):
 
     p = w.p
     out = []
-    for label, lv, lh, rv, rh in (
-        ("same order, hidden columns on both sides", ["a", "b"], ["h"], ["a", "b"], ["k"]),
-        ("right side in another order", ["a", "b"], [], ["b", "a"], ["k"]),
-        ("no hidden columns", ["a", "b"], [], ["a", "b"], []),
+    for label, lv, lh, rv, rh, types in (
+        ("same order, hidden columns on both sides", ["a", "b"], ["h"], ["a", "b"], ["k"], None),
+        ("right side in another order", ["a", "b"], [], ["b", "a"], ["k"], None),
+        ("no hidden columns", ["a", "b"], [], ["a", "b"], [], None),
+        # column pairs of different but compatible types: both inputs must arrive at the common supertype (a cast to anything
+        # narrower alters rows of one input)
+        ("Int64 | Float64 (the right side is wider)", ["a", "b"], [], ["a", "b"], ["k"], ({"a": "Int64", "b": "String"}, {"a": "Float64", "b": "String", "k": "Int64"})),
+        ("Float64 | Int64 (the left side is wider)", ["a", "b"], ["h"], ["b", "a"], [], ({"a": "Float64", "b": "String", "h": "Int64"}, {"a": "Int64", "b": "String"})),
+        ("Null | Int64 and Int64 | Float64", ["a", "b"], [], ["a", "b"], [], ({"a": "Null", "b": "Int64"}, {"a": "Int64", "b": "Float64"})),
+        ("equal types", ["a", "b"], [], ["a", "b"], [], ({"a": "Int64", "b": "String"}, {"a": "Int64", "b": "String"})),
     ):
         for distinct, have_union in itertools.product((False, True), (True, False)):
             luid = {n: f"L.{n}" for n in lv + lh}
@@ -467,15 +473,32 @@ def union_name_scenarios(w: PolWorld, branch):
             stacked = []
             dedup = []  # how duplicates are removed: ("kw", True) for union(.., distinct=True), "unique" for .unique() on the stack
 
-            def stack(frames, *a, _s=stacked, _d=dedup, **k):
+            stacked_types = []
+
+            def stack(frames, *a, _s=stacked, _d=dedup, _t=stacked_types, **k):
                 cols = [f.attrs["__frame__"].columns if isinstance(f, Obj) and "__frame__" in f.attrs else None for f in frames]
+                dts = [f.attrs.get("__dtypes__") if isinstance(f, Obj) else None for f in frames]
+                relaxed = isinstance(k.get("how"), str) and k["how"].endswith("_relaxed")
                 # (the probe `pl.concat([df.limit(0), ..])` that only asks for the common schema is not the stacking itself)
                 if k.get("how") is None or not _s:
                     _s.append(cols)
+                    _t.append((dts, relaxed))
                 if k.get("distinct"):
                     _d.append("distinct=True")
                 fr = _frame_obj(w, Frame(cols[0] or []))
-                _add_schema_methods(w, fr)
+                out_types = None
+                if all(d is not None for d in dts) and dts and cols[0] is not None:
+                    out_types = {}
+                    for i_, c_ in enumerate(cols[0]):
+                        t_ = dts[0][c_]
+                        for d_, cs_ in zip(dts[1:], cols[1:]):
+                            o_ = d_[cs_[i_]] if cs_ is not None and i_ < len(cs_) else t_
+                            if relaxed:
+                                t_ = _supertype(t_, o_) or t_
+                            elif o_ != t_:
+                                raise PyRaise("SchemaError", f"type {o_} is incompatible with expected type {t_}")
+                        out_types[c_] = t_
+                _add_schema_methods(w, fr, out_types)
                 un = fr.attrs["unique"]
                 fr.attrs["unique"] = Native(lambda *a2, _u=un, _d2=_d, **k2: (_d2.append("unique"), _u.fn(*a2, **k2))[1], "frame.unique")
                 return fr
@@ -487,12 +510,14 @@ def union_name_scenarios(w: PolWorld, branch):
                 def __getattr__(self_, k):
                     if k.startswith("__"):
                         raise AttributeError(k)
+                    if k in _PL_TYPES:
+                        return PlType(k)
                     return SymNS(f"pl.{k}")
 
             w.env["pl"] = _PlNS({"union": Native(stack if have_union else no_union, "pl.union"), "concat": Native(stack, "pl.concat")})
             lf, rf = _frame_obj(w, Frame(lv + lh)), _frame_obj(w, Frame(rv + rh))
-            _add_schema_methods(w, lf)
-            _add_schema_methods(w, rf)
+            _add_schema_methods(w, lf, types and types[0])
+            _add_schema_methods(w, rf, types and types[1])
             right_node = p.new("tree.verbs", "Ungroup", child=None, name="r")
             nd = p.new("tree.verbs", "Union", child=None, right=right_node, distinct=distinct, name="l")
             w.env["compile_ast"] = Native(lambda node, _f=rf, _n={u: n for n, u in ruid.items()}, _s=[ruid[n] for n in rv]: (_f, dict(_n), list(_s), []), "compile_ast")
@@ -511,6 +536,15 @@ def union_name_scenarios(w: PolWorld, branch):
                 probs.append(f"duplicates are {'removed (' + ', '.join(dedup) + ')' if dedup else 'kept'}, documented: {'removed' if distinct else 'kept'} for distinct={distinct}")
             if not stacked or stacked[-1] != [lv, lv]:
                 probs.append(f"the frames that are stacked have the columns {stacked[-1] if stacked else None}, documented {[lv, lv]} (hidden columns must not take part, columns are matched by position)")
+            if types and stacked_types:
+                want_t = {c: _supertype(types[0][c], types[1][c]) for c in lv}
+                got_t, relaxed_ = stacked_types[-1]
+                for side, d_ in zip(("left", "right"), got_t):
+                    if d_ is None:
+                        probs.append(f"the {side} input of the stacking has no schema")
+                    elif not relaxed_ and {c: d_.get(c) for c in lv} != want_t:
+                        probs.append(f"the {side} input is stacked with the column types {d_}, the common supertypes of the two inputs are {want_t}: "
+                                     "values of the wider side are altered (1.5 -> 1) or the stacking is refused")  # fmt: skip
             df = local["df"]
             cols = df.attrs["__frame__"].columns if isinstance(df, Obj) and "__frame__" in df.attrs else None
             names = local["name_in_df"]
@@ -525,17 +559,78 @@ def union_name_scenarios(w: PolWorld, branch):
     return out
 
 
-def _add_schema_methods(w, fr):
+_SUPER = {("Int64", "Float64"): "Float64", ("Int32", "Int64"): "Int64", ("Int32", "Float64"): "Float64"}
+
+
+def _supertype(a, b):
+    """the common supertype of two column types of the schema-level model (None: there is none)"""
+    if a == b:
+        return a
+    if a == "Null":
+        return b
+    if b == "Null":
+        return a
+    return _SUPER.get((a, b)) or _SUPER.get((b, a))
+
+
+class PlType:
+    """a Polars data type of the schema-level model (`pl.Int64`): a concrete value, compared by name"""
+
+    def __init__(self, name):
+        self.name = name
+
+    def __eq__(self, o):
+        return isinstance(o, PlType) and o.name == self.name
+
+    def __hash__(self):
+        return hash(("PlType", self.name))
+
+    def __repr__(self):
+        return f"pl.{self.name}"
+
+    def __call__(self, *a, **k):  # pl.Null() is the same type
+        return self
+
+
+_PL_TYPES = ("Null", "Int64", "Int32", "Float64", "String", "Boolean")
+
+
+def _dt(name):
+    return PlType(name)
+
+
+def _add_schema_methods(w, fr, dtypes=None):
+    """schema-level frame methods; with `dtypes` ({column: type name}) the frame also has column types: `collect_schema()` is
+    the ordered {column: pl.<Type>}, `cast` changes it, `select` projects it"""
     cols = fr.attrs["__frame__"].columns
-    fr.attrs["collect_schema"] = Native(lambda _c=cols: tuple(sorted(_c)), "frame.collect_schema")
+    if dtypes is None:
+        fr.attrs["collect_schema"] = Native(lambda _c=cols: tuple(sorted(_c)), "frame.collect_schema")
+        fr.attrs["cast"] = Native(lambda m, _f=fr: _f, "frame.cast")
+    else:
+        fr.attrs["__dtypes__"] = dict(dtypes)
+        fr.attrs["collect_schema"] = Native(lambda _c=cols, _d=dtypes: {c: _dt(_d[c]) for c in _c}, "frame.collect_schema")
+
+        def cast(m, _f=fr, _d=dtypes):
+            if not isinstance(m, dict):
+                raise AnalysisError("polsim: frame.cast with something that is not a mapping")
+            new = dict(_d)
+            for k, v in m.items():
+                if not isinstance(v, PlType):
+                    raise AnalysisError(f"polsim: frame.cast to {v!r}")
+                if k in new:
+                    new[k] = v.name
+            r = _frame_obj(w, Frame(list(_f.attrs["__frame__"].columns), _f.attrs["__frame__"].log + [f"cast {new}"]))
+            _add_schema_methods(w, r, new)
+            return r
+
+        fr.attrs["cast"] = Native(cast, "frame.cast")
     fr.attrs["limit"] = Native(lambda n, _f=fr: _f, "frame.limit")
-    fr.attrs["cast"] = Native(lambda m, _f=fr: _f, "frame.cast")
     fr.attrs["unique"] = Native(lambda *a, _f=fr, **k: _f, "frame.unique")
     sel = fr.attrs["select"]
 
     def select(*names, _sel=sel):
         r = _sel.fn(*names)
-        _add_schema_methods(w, r)
+        _add_schema_methods(w, r, None if dtypes is None else {c: dtypes[c] for c in r.attrs["__frame__"].columns})
         return r
 
     fr.attrs["select"] = Native(select, "frame.select")
